@@ -124,6 +124,22 @@ pub fn cases_for(prop: &str, tier: &str, seed: u64, shard: (usize, usize)) -> (V
             let n = budget(tier, 1600, 40000) / shard.1;
             family_random_docs(&mut cases, &pool, &mut rng, n, "trace", &format!("t{}x", shard.0), true);
         }
+        "VAL" => {
+            // development job: default plan + every singleton on random documents
+            let n = budget(tier, 1600, 40000) / shard.1;
+            let mut tmp: Vec<Case> = vec![];
+            family_random_docs(&mut tmp, &pool, &mut rng, n, "validate", &format!("v{}x", shard.0), false);
+            if shard.0 == 0 {
+                for (id, sname, doc) in corpus_docs() {
+                    let si = pool.iter().position(|s| s.name == sname).unwrap();
+                    tmp.push(Case { id: format!("corpus-{}", id), family: "corpus".into(), schema: si, op: "validate".into(), doc: Some(doc.to_string()), extra: vec![], note: String::new() });
+                }
+            }
+            for mut c in tmp {
+                c.extra = vec![format!("(plan {})", crate::op_validate::ALL_RULES.join(" "))];
+                cases.push(c);
+            }
+        }
         _ => {
             eprintln!("no job for {}", prop);
         }
@@ -137,6 +153,7 @@ pub fn run_impl(c: &Case, si: &SchemaInfo, doc: Option<&q::Document>) -> Vec<Str
     match c.op.as_str() {
         "trace" => crate::op_trace::run_trace(&si.doc, doc.unwrap()),
         "strace" => crate::op_trace::run_strace(&si.doc),
+        "validate" => crate::op_validate::run_validate(&si.doc, doc.unwrap(), &crate::op_validate::parse_plan(&c.extra[0])),
         _ => vec!["NOIMPL".to_string()],
     }
 }
